@@ -22,7 +22,7 @@ void failC(const char* kind, const std::string& d) { vs::childFail(kind, d.c_str
 
 void runProgram(ThreadCtx& t) {
   for (const Op* op : t.prog->ops) {
-    int what = (int)(((op->a[1] % 5) + 5) % 5), a = (int)(((op->a[2] % NSLOT) + NSLOT) % NSLOT), b = (int)(((op->a[3] % NSLOT) + NSLOT) % NSLOT);
+    int what = (int)(((op->a[1] % 6) + 6) % 6), a = (int)(((op->a[2] % NSLOT) + NSLOT) % NSLOT), b = (int)(((op->a[3] % NSLOT) + NSLOT) % NSLOT);
     vsched::point("op");
     switch (what) {
       case 0:  // copy a -> b
@@ -32,6 +32,7 @@ void runProgram(ThreadCtx& t) {
       case 1: if (t.slot[a]) { t.k->destroy(t.slot[a]); t.slot[a] = nullptr; } break;
       case 2: if (t.slot[a] && t.slot[b]) { t.k->assign(t.slot[b], t.slot[a]); t.model[b] = t.model[a]; } break;
       case 3: if (t.slot[a]) t.k->modify(t.slot[a], t.tid, (int)op->a[3], t.model[a]); break;
+      case 5: if (t.slot[a]) t.k->clear(t.slot[a], t.model[a]); break;
       default: break;
     }
     // every handle of this thread still shows the value this thread gave it
@@ -51,8 +52,8 @@ void pbt_generate(Rng& r, int size, Case& c) {
   c.params["nsched"] = 12;
   c.params["share"] = (long)r.below(3);  // how many threads get a handle to payload 1 as well
   int n = 2 + (int)r.below((uint64_t)size + 1);
-  static const int w[] = {30, 22, 14, 26, 8};
-  for (int k = 0; k < n; ++k) c.add("op", (long)r.below((uint64_t)nt), (long)r.weighted(w, 5), (long)r.below(NSLOT), (long)r.below(NSLOT));
+  static const int w[] = {28, 20, 13, 22, 5, 12};
+  for (int k = 0; k < n; ++k) c.add("op", (long)r.below((uint64_t)nt), (long)r.weighted(w, 6), (long)r.below(NSLOT), (long)r.below(NSLOT));
 }
 
 bool pbt_nontrivial(const Ctx& ctx) { return ctx.has("interleaved_counter_ops"); }
